@@ -14,8 +14,10 @@ OP_KEYS = {"id", "state", "is_assignable_state", "parents_complete"}
 
 class Peer:
     """the external scheduler: a naive policy (transcription of go/naive) that may also suspend a suspendable batch container"""
-    def __init__(self, rng, suspend_prob, multi=False, retry=False, parents=None):
+    def __init__(self, rng, suspend_prob, multi=False, retry=False, parents=None, frac=False, over=False):
         self.rng, self.suspend_prob, self.multi = rng, suspend_prob, multi
+        self.frac = frac          # also admissible: ask for fractional CPUs / GB (binary fractions, so nothing is lost in JSON)
+        self.over = over          # memory overcommit is on: one CPU and the pool's whole RAM per container, like overbook -> free RAM goes negative
         self.retry = retry        # also admissible: give a failed operator another try instead of dropping its pipeline
         self.parents = parents    # for hand-built DAG pipelines: {pipeline_id: [[parent positions] per operator]} -> the peer may pick any admissible operator order
         self.op_snaps = []        # per call: the real state of every operator delivered so far
@@ -27,8 +29,14 @@ class Peer:
         pipes = body["other_pipelines"] + body["new_pipelines"]
         used = set()
         for pool in body["pools"]:
-            if pool["avail_cpu"] <= 0 or pool["avail_ram_gb"] <= 0:
+            if pool["avail_cpu"] <= 0 or (pool["avail_ram_gb"] <= 0 and not self.over):
                 continue
+            want_cpu, want_ram = pool["avail_cpu"], pool["avail_ram_gb"]
+            if self.over:
+                want_cpu, want_ram = min(2, pool["avail_cpu"]), pool["max_ram_gb"]
+            elif self.frac and want_cpu > 1 and want_ram > 1:
+                want_cpu, want_ram = want_cpu - self.rng.choice([0.5, 0.25, 1.5 if want_cpu > 2 else 0.5]), want_ram - self.rng.choice([0.5, 0.75, 3.5 if want_ram > 4 else 0.5])
+                self.fractional = getattr(self, "fractional", 0) + 1
             for p in pipes:
                 if p["is_complete"] or (p["has_failures"] and not self.retry) or p["pipeline_id"] in used:
                     continue
@@ -45,7 +53,7 @@ class Peer:
                     if other is not None:
                         used.add(other["pipeline_id"])
                         o2 = next(o for o in other["operators"] if o["is_assignable_state"] and o["parents_complete"])
-                        asg.append({"operator_ids": [ready[0]["id"], o2["id"]], "cpu": pool["avail_cpu"], "ram_gb": pool["avail_ram_gb"],
+                        asg.append({"operator_ids": [ready[0]["id"], o2["id"]], "cpu": want_cpu, "ram_gb": want_ram,
                                     "priority": p["priority"], "pool_id": pool["pool_id"], "is_resume": False, "force_run": False})
                         self.mixed = getattr(self, "mixed", 0) + 1
                         break
@@ -53,7 +61,7 @@ class Peer:
                     all(o["is_assignable_state"] or o["state"] == "completed" for o in p["operators"]) else [ready[0]["id"]]
                 if len(chosen) > 2 and self.parents and p["pipeline_id"] in self.parents:
                     chosen = self.some_order(p, chosen)
-                asg.append({"operator_ids": chosen, "cpu": pool["avail_cpu"], "ram_gb": pool["avail_ram_gb"], "priority": p["priority"],
+                asg.append({"operator_ids": chosen, "cpu": want_cpu, "ram_gb": want_ram, "priority": p["priority"],
                             "pool_id": pool["pool_id"], "is_resume": False, "force_run": False})
                 break
         if self.executor is not None and self.rng.random() < self.suspend_prob:
@@ -211,13 +219,16 @@ def one_run(ctx, drv, rng):
         poll = rng.choice([F(1, tps), F(1, tps), F(2, tps)])
     if directed:
         multi, poll = False, F(1, tps)
-    peer = Peer(rng, sus_prob, multi, retry=directed or (dag and rng.random() < 0.6),
+    over = (not heavy) and (not directed) and rng.random() < 0.25
+    peer = Peer(rng, sus_prob, multi, retry=directed or (dag and rng.random() < 0.6), frac=rng.random() < 0.4, over=over,
                 parents={f"d{k}": [o["parents"] for o in p["ops"]] for k, p in enumerate(spec["pipes"])} if dag else None)
     srv = serve(peer)
     params = {"duration": rng.choice([20, 40]), "ticks_per_second": tps, "waiting_seconds_mean": rng.choice([0.5, 2.0, 6.0]),
               "num_pipelines": rng.randint(1, 3), "num_operators": 4 if heavy else rng.choice([2, 4]), "num_pools": rng.choice([1, 2, 3]), "cpus_per_pool": 8,
               "ram_gb_per_pool": rng.choice([64, 128, 256]), "multi_operator_containers": multi, "random_seed": rng.randint(0, 10 ** 6),
               "rest_scheduler_addr": f"127.0.0.1:{srv.server_port}", "rest_poll_interval": float(poll)}
+    if over:
+        params["allow_memory_overcommit"] = True
     if dag:
         params.update({"ram_gb_per_pool": 64, "num_pools": rng.choice([2, 2, 3]), "duration": rng.choice([20, 30]), "rest_poll_interval": float(poll)})
     if twins:
@@ -320,6 +331,9 @@ def one_run(ctx, drv, rng):
         return viol(ctx, "transparency", f"the peer issued {nsus} suspensions, the executor received {nexec}", case)
     ctx.sit("containers_mixing_two_pipelines", getattr(peer, "mixed", 0))
     ctx.sit("dag_workload_runs", int(dag))
+    ctx.sit("overcommit_runs", int(over))
+    ctx.sit("calls_showing_negative_free_ram", sum(1 for _, _, snap in peer.calls if snap and any(pl["avail_ram_gb"] < 0 for pl in snap)))
+    ctx.sit("assignments_with_fractional_cpu_or_ram", getattr(peer, "fractional", 0))
     ctx.sit("failed_operators_retried", getattr(peer, "retried", 0))
     ctx.sit("containers_given_in_a_non_pipeline_order", getattr(peer, "reordered", 0))
     ctx.sit("assignments_issued_by_peer", sum(len(r["assignments"]) for _, r, _ in peer.calls))
